@@ -77,6 +77,87 @@ func swzIdx(e wg.N) []int {
 	return nil
 }
 
+// chainText prints the tree with every operator node below the root turned into a module-scope constant of its own
+// (`const K_a = x op y; const K_b: i32 = 2 - 5;` ...), so that the root expression consumes *computed* named constants.
+// A scalar conversion T(e) of an abstract operator node is written as the typed declaration `const K: T = e;` (the same
+// conversion in WGSL).  decl receives the declarations in dependency order; the root's text is returned.
+func chainText(e wg.N, pfx string, decl func(line string)) string {
+	n := 0
+	name := func() string {
+		n++
+		return fmt.Sprintf("%s_%c", pfx, 'a'+n-1)
+	}
+	isOp := func(x wg.N) bool { k := wg.K(x); return k == "bin" || k == "un" || k == "bi" }
+	var pr func(e wg.N, root bool) string
+	args := func(as []wg.N) string {
+		var out []string
+		for _, a := range as {
+			out = append(out, pr(a, false))
+		}
+		return strings.Join(out, ", ")
+	}
+	pr = func(e wg.N, root bool) string {
+		var txt string
+		switch wg.K(e) {
+		case "lit":
+			return litText(e)
+		case "sink":
+			return pr(wg.Sub(e, "a"), root)
+		case "un":
+			txt = "(" + wg.S(e, "op") + pr(wg.Sub(e, "a"), false) + ")"
+		case "bin":
+			a := pr(wg.Sub(e, "a"), false)
+			txt = "(" + a + " " + wg.S(e, "op") + " " + pr(wg.Sub(e, "b"), false) + ")"
+		case "cast":
+			a := wg.Sub(e, "a")
+			if !root && lanesOf(tOf(e)) == 0 && isOp(a) && isAbs(kindOf(tOf(a))) {
+				// typed declaration of an abstract initialiser: the operator node itself is not named separately
+				var inner string
+				switch wg.K(a) {
+				case "un":
+					inner = "(" + wg.S(a, "op") + pr(wg.Sub(a, "a"), false) + ")"
+				case "bin":
+					x := pr(wg.Sub(a, "a"), false)
+					inner = "(" + x + " " + wg.S(a, "op") + " " + pr(wg.Sub(a, "b"), false) + ")"
+				default:
+					inner = wg.S(a, "f") + "(" + args(wg.L(a, "args")) + ")"
+				}
+				nm := name()
+				decl(fmt.Sprintf("const %s: %s = %s;", nm, wgslType(tOf(e)), inner))
+				return nm
+			}
+			return wgslType(tOf(e)) + "(" + pr(a, false) + ")"
+		case "bitcast":
+			return "bitcast<" + wgslType(tOf(e)) + ">(" + pr(wg.Sub(e, "a"), false) + ")"
+		case "ctor":
+			if wg.I(e, "ex") == 1 {
+				return wgslType(tOf(e)) + "(" + args(wg.L(e, "args")) + ")"
+			}
+			return fmt.Sprintf("vec%d(%s)", wg.I(tOf(e), "n"), args(wg.L(e, "args")))
+		case "swz":
+			sw := ""
+			for _, i := range swzIdx(e) {
+				sw += string("xyzw"[i])
+			}
+			return pr(wg.Sub(e, "a"), false) + "." + sw
+		case "bi":
+			txt = wg.S(e, "f") + "(" + args(wg.L(e, "args")) + ")"
+		default:
+			return "/*?" + wg.K(e) + "*/"
+		}
+		if root {
+			return txt
+		}
+		nm := name()
+		decl(fmt.Sprintf("const %s = %s;", nm, txt))
+		return nm
+	}
+	return pr(e, true)
+}
+
+// baseForm strips the "chain_" prefix: a chain form is the base form applied to the root expression over computed named constants.
+func baseForm(form string) string { return strings.TrimPrefix(form, "chain_") }
+
 // leaves lists the literal leaves in printing order.
 func leaves(e wg.N) []wg.N {
 	var out []wg.N
@@ -296,7 +377,10 @@ func (p *cprog) add(c *ccase, form string) *site {
 	p.sites = append(p.sites, s)
 	t := tOf(c.Tree)
 	txt := literalText(c.Tree)
-	switch form {
+	if strings.HasPrefix(form, "chain_") {
+		txt = chainText(c.Tree, p.fresh("K"), func(line string) { p.module.WriteString(line + "\n") })
+	}
+	switch baseForm(form) {
 	case "fn":
 		if lanesOf(t) == 0 {
 			p.store(s, t, txt)
@@ -361,7 +445,7 @@ func (p *cprog) add(c *ccase, form string) *site {
 		fmt.Fprintf(&p.module, "var<workgroup> %s: array<u32, %s>;\n", s.name, txt)
 	case "assert_eq", "assert_ne":
 		op := "=="
-		if form == "assert_ne" {
+		if baseForm(form) == "assert_ne" {
 			op = "!="
 		}
 		want := cLit(kindOf(t), c.Pred.V[0])
